@@ -16,7 +16,16 @@ STD_CLIENT_IMPORTS = [  # what ClientGenerator.__init__ always adds before autof
     (0, "typing", ["Optional", "List", "Dict", "Any", "Union", "AsyncIterator"]),
     (1, "base_model", ["UNSET", "UnsetType", "Upload"]),
 ]
-IDENT = re.compile(r"[A-Za-z_][A-Za-z_0-9]*")
+class _Ident:
+    """identifiers of a piece of source text, string literals excluded ("List": list refers to `list` only)"""
+    _id = re.compile(r"[A-Za-z_][A-Za-z_0-9]*")
+    _str = re.compile(r"\"(?:[^\"\\]|\\.)*\"|'(?:[^'\\]|\\.)*'")
+
+    def findall(self, text):
+        return self._id.findall(self._str.sub(" ", text))
+
+
+IDENT = _Ident()
 
 
 def norm_doc(q: str) -> str:
@@ -51,6 +60,8 @@ def rexpr_of(node):
     if (isinstance(node, ast.Call) and isinstance(node.func, ast.Attribute) and node.func.attr == "model_validate"
             and isinstance(node.func.value, ast.Name) and len(node.args) == 1 and not node.keywords):
         return [Sym("validate"), node.func.value.id]
+    if isinstance(node, ast.Call) and isinstance(node.func, ast.Attribute) and isinstance(node.func.value, ast.Name):
+        return [Sym("callon"), node.func.value.id, ast.unparse(node)]   # e.g. self.get_data(response)
     return [Sym("other"), ast.unparse(node)]
 
 
@@ -100,11 +111,21 @@ def method_of(fn):
     pos = a.args[1:] if a.args and a.args[0].arg == "self" else a.args
     defaults = [None] * (len(a.args) - len(a.defaults)) + list(a.defaults)
     defaults = defaults[len(a.args) - len(pos):]
-    for arg, d in zip(pos, defaults):
+    pairs = list(zip(pos, defaults))
+    # the generator builds `*fields` and what follows it as ordinary entries of args.args (name "*fields");
+    # only **kwargs is a real ast kwarg.  The hooks therefore see them as parameters.
+    if a.vararg is not None:
+        pairs.append((ast.arg(arg="*" + a.vararg.arg, annotation=a.vararg.annotation), None))
+        pairs.extend(zip(a.kwonlyargs, a.kw_defaults))
+        tail_args = ast.arguments(posonlyargs=[], args=[], vararg=None, kwonlyargs=[], kw_defaults=[],
+                                  kwarg=a.kwarg, defaults=[])
+    else:
+        tail_args = ast.arguments(posonlyargs=[], args=[], vararg=None, kwonlyargs=a.kwonlyargs,
+                                  kw_defaults=a.kw_defaults, kwarg=a.kwarg, defaults=[])
+    for arg, d in pairs:
         params.append([arg.arg, None if arg.annotation is None else [Sym("some"), ann_of(arg.annotation)],
                        None if d is None else [Sym("some"), ast.unparse(d)]])
-    tail = ast.unparse(ast.arguments(posonlyargs=[], args=[], vararg=a.vararg, kwonlyargs=a.kwonlyargs,
-                                     kw_defaults=a.kw_defaults, kwarg=a.kwarg, defaults=[]))
+    tail = ast.unparse(tail_args)
     body = []
     qv = set()
     for st in fn.body:
@@ -200,6 +221,10 @@ def encode_unplugged(files: dict, operations, method_name, fragments_module="fra
         uops.append([name, Sym(op.operation.value), doc, classes, imports, m])
     fcs = classes_of(files[fragments_module + ".py"])[0] if fragments_module + ".py" in files else []
     ii, ia = init_of(files["__init__.py"])
+    op_methods = {scen_name for scen_name in (method_name(op.name.value) for op in operations)}
+    # the client carries only the methods that are not operations (enable_custom_operations); the model appends
+    # them after the operations' methods, as ClientGenerator does
+    client = dict(client, methods=[m for m in client["methods"] if m[0] not in op_methods])
     return [uops, fcs, client_sexp(client), [ii, ia or []]]
 
 
@@ -223,7 +248,7 @@ def sx_plain(e):
 
 def names_in_ann(a, out):
     if a[0] in ("n", "c"):
-        out.update(IDENT.findall(a[1]))
+        out.update(IDENT._id.findall(a[1]))
     elif a[0] == "s":
         out.add(a[1])
         for x in a[2]:
@@ -237,20 +262,27 @@ def names_in_rexpr(r, out):
         out.add(r[1])
     elif r[0] == "attr":
         names_in_rexpr(r[1], out)
+    elif r[0] == "callon":
+        out.add(r[1])
+        out.update(IDENT.findall(r[2]))
     else:
         out.update(IDENT.findall(r[1]))
 
 
 def method_used_names(m):
-    """m in plain form: [name, async, params, tail, returns, body]"""
-    out = set(IDENT.findall(m[3]))
+    """Names of the enclosing (module) scope a method refers to.  m in plain form: [name, async, params, tail,
+    returns, body].  Annotations and defaults are evaluated in the module scope; inside the body a parameter
+    shadows a module-level name (pyflakes/autoflake see it the same way)."""
+    sig = set(IDENT.findall(m[3]))
     for p in m[2]:
         if p[1] != "none":
-            names_in_ann(p[1][1], out)
+            names_in_ann(p[1][1], sig)
         if p[2] != "none":
-            out.update(IDENT.findall(p[2][1]))
+            sig.update(IDENT.findall(p[2][1]))
     if m[4] != "none":
-        names_in_ann(m[4][1], out)
+        names_in_ann(m[4][1], sig)
+    params = {p[0].lstrip("*") for p in m[2]}
+    out = set()
     for s in m[5]:
         k = s[0]
         if k in ("vars", "data", "other"):
@@ -266,7 +298,7 @@ def method_used_names(m):
             names_in_rexpr(s[1], out)
         elif k == "query":
             out.add("gql")
-    return out
+    return sig | (out - params)
 
 
 def canonical_client(plain, cleanup: bool, extra_used=()):
